@@ -27,8 +27,15 @@ MANIFEST = dict(
          "under ExpAgree (run-time exponent = statically evaluated exponent) (C01_binop_agree_partial), and its lifting "
          "by induction to whole expression trees of the arithmetic fragment over a closed monomorphic environment "
          "(C01_expr_agree_partial: accepted => type is a variable-free dimension d and run-time unit dimension is "
-         "exactly d, never IncompatibleUnits); both closed under the global context; the static types come from the "
-         "solver proved sound in C02_solver_sound. NOT proved: let-programs, generic calls, conditionals, structs, "
+         "exactly d, never IncompatibleUnits), and to programs (C01_program_sound_partial: every accepted sequence of "
+         "let definitions and expression statements of the fragment over a growing monomorphic environment, including "
+         "re-bound names, runs without unit incompatibility and every global's run-time unit dimension equals its "
+         "reported type; a name resolves to its latest binding); these are closed under the global context. "
+         "C01_refuted_exponent: a kernel-computed witness (primitive binary64 floats, port of num-rational's "
+         "approximate_float) that ExpAgree fails for (m^2)^(0.1+0.2): static exponent 3/10, run-time "
+         "1125899906842624/3752999689475413, and the run-time `+` with m^(3/5) is a unit incompatibility (depends on the "
+         "kernel's primitive float/int63 operations only); the static types come from the "
+         "solver proved sound in C02_solver_sound. NOT proved: function definitions and calls, generic calls, conditionals, structs, "
          "lists (C01_sound_full : Prop). That part is decided on "
          "every run by an oracle on the real implementation: generated accepted programs (arithmetic with prefixes, "
          "integer/fractional/composite constant exponents, derived units and dimensions, generic and inferred "
@@ -41,7 +48,15 @@ MANIFEST = dict(
     technique="Coq proof (per-operator static/run-time agreement) + model correspondence + run-time oracle through hooks",
 )
 
-THEOREMS = ["C01_binop_agree_partial", "C01_expr_agree_partial"]
+THEOREMS = ["C01_binop_agree_partial", "C01_expr_agree_partial", "C01_program_sound_partial",
+            "C01_refuted_exponent"]
+# kernel primitives (not axioms) that Print Assumptions lists for the float-exact witness lemma only
+ALLOWED_AXIOMS = ["PrimInt63.sub", "PrimFloat.sub", "PrimFloat.opp", "PrimFloat.of_uint63", "PrimFloat.normfr_mantissa",
+                  "PrimFloat.ltb", "PrimFloat.leb", "PrimFloat.mul", "PrimFloat.compare", "PrimFloat.classify",
+                  "PrimInt63.lsr", "PrimInt63.lsl", "PrimInt63.lor", "PrimFloat.ldshiftexp", "PrimInt63.land",
+                  "PrimInt63.int", "PrimFloat.frshiftexp", "PrimFloat.float", "PrimInt63.eqb", "PrimFloat.eqb",
+                  "PrimFloat.div", "PrimFloat.add", "PrimFloat.abs", "PrimInt63.add", "PrimInt63.mul", "PrimInt63.ltb",
+                  "PrimInt63.leb"]
 IMPORTS = ["Dim.Model", "Dim.Infer", "Dim.Exec", "Gen.PreludeDims"]
 
 # run-time error kinds that mean "went wrong dimensionally"
@@ -261,7 +276,7 @@ def run(chk):
     info = D.translate_prelude(binary)
     proved = chk.prove("Props.C01", THEOREMS,
                        ["theories/Props/C01.vo", "theories/Props/C02.vo", "theories/Dim/Exec.vo",
-                        "theories/Gen/PreludeDims.vo"])
+                        "theories/Gen/PreludeDims.vo"], allowed=ALLOWED_AXIOMS)
     chk.trusted += [
         "model Dim/Model.v + Dim/Infer.v + Dim/Run.v (hand-written; static side validated by correspondence)",
         "hooks numbat::verif::dim::{statement_text, raw_global_text} and the guarded accessors behind them",
